@@ -1,7 +1,34 @@
 """C03 — frame reassembly depends on the bytes received, not on how reads split them."""
+import os
+import random
+import time
+
 from common import Prop, hexs, unhex
-from ref import ref_frame, ref_crc16_xmodem
+from ref import ref_frame
 import genlib as g
+
+
+def _mk_crc_table():
+    t = []
+    for i in range(256):
+        r = i << 8
+        for _ in range(8):
+            r = ((r << 1) ^ 0x1021) & 0xFFFF if r & 0x8000 else (r << 1) & 0xFFFF
+        t.append(r)
+    return t
+
+
+_CRC_T = _mk_crc_table()
+
+
+def crc16(data):
+    """CRC-16/XMODEM (poly 0x1021, init 0, no reflection, no xorout), table driven: the oracle's own CRC
+    (frames of up to 65535 bytes are judged, the bitwise reference in ref.py is too slow for that)"""
+    r = 0
+    t = _CRC_T
+    for b in data:
+        r = ((r << 8) & 0xFFFF) ^ t[(r >> 8) ^ b]
+    return r
 
 
 def scripted_comm(chunks, frame_cls=None):
@@ -84,7 +111,7 @@ def ref_scan(data):
             continue
         if n - j < flen:
             return out
-        if flen >= 6 and ref_crc16_xmodem(data[j:j + flen]) == 0:
+        if flen >= 6 and crc16(data[j:j + flen]) == 0:
             out.append((fid, data[j + 4:j + flen - 2]))
             i = j + flen
         else:
@@ -117,14 +144,349 @@ def gen_stream(rng, maxparts=6):
     return b"".join(parts)
 
 
+# ---- long frames (REVIEW C03-1): lengths around every power-of-two / buffer-size boundary a receive path may have ----
+BIG_SIZES = [255, 256, 257, 1023, 1024, 1025, 1500, 4096, 4097, 32767, 32768, 65535]
+NOISE_BEFORE = bytes([0x00, 0x55, 0x13, 0xAA, 0x55])     # two false start bytes, neither starts a decodable header
+EX_FRAME = bytes([0x55, 0x07, 0x00, 0x05, 0x01, 0x88, 0x9C])
+BOGUS40 = bytes([0x55, 0x28, 0x00, 0x02, 0xAA, 0xBB])     # decodable header (id 2) declaring 0x28 bytes
+BOGUS65535 = bytes([0x55, 0xFF, 0xFF, 0x07])              # decodable header (id 7) declaring 65535 bytes
+
+
+def big_frame(rng, total, fid=None):
+    """valid frame of exactly `total` bytes on the wire; the payload is random (so it contains start bytes)"""
+    fid = rng.choice([1, 1, 2, 3, 4, 8]) if fid is None else fid
+    return ref_frame(fid, rng.randbytes(total - 6))
+
+
+def cut(data, n):
+    return [data[i:i + n] for i in range(0, len(data), n)] or [b""]
+
+
+def big_chunkings(pre, f, post, small, all_splits):
+    """(tag, chunks) for the stream pre ++ f ++ post: one read, 64-byte reads, reads of 1500 with an idle read after
+    each (a frame in transit over a tty), splits inside the header / at the header end / inside the CRC each followed
+    by an idle read, and byte-wise for the small ones"""
+    s = pre + f + post
+    a = len(pre)
+    out = [("big-one-read", [s]), ("big-64", cut(s, 64)),
+           ("big-1500-idle", [x for c in cut(s, 1500) for x in (c, b"")])]
+    splits = [("big-split-in-hdr", a + 2), ("big-split-hdr-end", a + 4), ("big-split-in-crc", a + len(f) - 1),
+              ("big-split-mid", a + len(f) // 2)]
+    for k, (tag, pos) in enumerate(splits):
+        if all_splits or k == (len(f) + a) % len(splits):
+            out.append((tag, [s[:pos], b"", s[pos:]]))
+            out.append((tag + "-noidle", [s[:pos], s[pos:]]))
+    if small:
+        out.append(("big-bytewise", [bytes([b]) for b in s]))
+        out.append(("big-bytewise-idle", [x for b in s for x in (bytes([b]), b"")]))
+    return out
+
+
+def delay_cases(rng, T):
+    """REVIEW C03-2: a decodable header that announces more bytes than have arrived makes the receiver wait; the
+    frames behind it are delivered, all of them, once the announced number of bytes is in"""
+    more = EX_FRAME * 2
+    d1 = BOGUS40 + EX_FRAME * 3
+    yield [d1], "delay-stalled"                                   # 27 of 40 bytes: nothing yet
+    yield [d1, b"", b""], "delay-stalled"
+    yield [d1, b"", more], "delay-resumed"                        # 41 bytes: window rejected, five frames delivered
+    yield [d1, b"", more[:12]], "delay-stalled"                   # 39 bytes: still waiting
+    yield [d1, b"", more[:12], b"", more[12:13]], "delay-resumed"     # the 40th byte arrives alone
+    yield [bytes([b]) for b in d1 + more] + [b""], "delay-resumed"
+    yield g.random_chunking(rng, d1 + more + g.valid_frame(rng)), "delay-resumed"
+    d2 = BOGUS65535 + EX_FRAME * 100
+    yield [d2, b""], "delay-stalled"                              # 704 of 65535 bytes: none of the 100 frames yet
+    need = 65535 - len(d2)
+    frames_fill = b"".join(big_frame(rng, 2000) for _ in range(need // 2000)) + big_frame(rng, need % 2000)
+    fills = [bytes(need), frames_fill] + ([rng.randbytes(need)] if T else [])
+    for fill in fills:
+        tail = g.valid_frame(rng, fid=4)
+        yield [d2, b""] + cut(fill[:-1], 4096) + [b""], "delay-stalled"          # 65534 bytes: still waiting
+        yield [d2, b""] + cut(fill, 4096) + [b"", tail], "delay-resumed"         # 65535: all delivered
+        yield cut(d2 + fill + tail, 1500), "delay-resumed"
+
+
+# ---- public level (REVIEW C03-3): CommHandler.stream_data() over a scripted link -------------------------------------
+def pub_session(layout, script_reads, seed=None, stale=None, info=None):
+    """The real CommHandler connects (virtual-time runtime, reference device) to a device with the channel `layout`;
+    then the link returns the scripted reads (b"" = an idle read) and the application polls stream_data() until the
+    script is exhausted and nothing more comes.  Returns (canonical stream_data() results, reads seen by the client
+    after the handshake, the client's carry-over buffer when the script started).
+    With `stale` (bytes): after the first connect the device emits `stale` (e.g. the beginning of a frame), the client
+    reads it, disconnects, and connects again with the SAME handler; the script then runs in the second session.
+    `info` receives requests written / virtual seconds of both connects and the outcome of the second one."""
+    import vsim
+    import refdev
+    import streamglue as sg
+    from nxslib.intf.iintf import ICommInterface
+
+    chans = [dict(en=True, type=t, vdim=v, div=0, mlen=m, name=f"ch{i}") for i, (t, v, m) in enumerate(layout)]
+    res = {}
+
+    def scenario(sim):
+        from nxslib.comm import CommHandler
+        from nxslib.proto.parse import Parser
+        dev = refdev.RefDevice(chans, flags=3)
+        dev.now = lambda: sim.now
+
+        class Link(ICommInterface):
+            script = None
+            seen = []
+
+            def start(self): pass
+            def stop(self): pass
+            def drop_all(self): pass
+
+            def _read(self):
+                if self.script is None:
+                    if not sim.block(lambda: len(dev.rx) > 0, 0.01, "link-read"):
+                        return b""
+                    out = bytes(dev.rx)
+                    del dev.rx[:]
+                    return out
+                if self.script:
+                    c = self.script.pop(0)
+                    if not c:
+                        sim.block(lambda: False, 0.01, "link-idle")
+                    self.seen.append(c)
+                    return c
+                sim.block(lambda: False, 0.01, "link-idle")
+                return b""
+
+            def _write(self, data):
+                self.nwrites += 1
+                sim.yield_("link-write")
+                dev.on_write(bytes(data))
+
+        link = Link()
+        link.nwrites = 0
+        comm = CommHandler(link, Parser())
+        t0 = sim.now
+        comm.connect()
+        if info is not None:
+            info["connect1"] = (link.nwrites, round(sim.now - t0, 2))
+        if stale is not None:
+            dev.rx += stale
+            sim.block(lambda: False, 0.5, "stale-bytes-read")
+            comm.disconnect()
+            del dev.rx[:]
+            w0, t0 = link.nwrites, sim.now
+            try:
+                comm.connect()
+                outcome = "ok"
+            except Exception as e:      # noqa: BLE001 - the outcome of the second connect is what is judged
+                outcome = "exc " + type(e).__name__ + ": " + str(e)[:80]
+            if info is not None:
+                info["connect2"] = (link.nwrites - w0, round(sim.now - t0, 2))
+                info["connect2_outcome"] = outcome
+            if outcome != "ok":
+                res["seen"], res["carry"] = [], b""
+                try:
+                    comm.disconnect()
+                except Exception:       # noqa: BLE001
+                    pass
+                return []
+        sim.block(lambda: False, 0.05, "settle")
+        res["carry"] = bytes(comm._prev_read)
+        link.seen = []
+        link.script = list(script_reads)
+        out = []
+        nones = 0
+        for _ in range(100000):
+            try:
+                ds = comm.stream_data()
+            except Exception as e:      # noqa: BLE001 - reported as the result of that call
+                out.append("exc " + type(e).__name__)
+                continue
+            if ds is None:
+                if not link.script:
+                    nones += 1
+                    if nones >= 2:
+                        break
+                continue
+            nones = 0
+            out.append(ds)
+        res["seen"] = list(link.seen)
+        comm.disconnect()
+        return out
+
+    r, sim = vsim.run_sim(scenario, seed=seed, time_limit=100000.0, real_limit=60.0)
+    if isinstance(r, BaseException):
+        raise r
+    return r, res["seen"], res["carry"]
+
+
+PUB_TYPES = [2, 3, 4, 5, 6, 7, 8, 9, 10, 11]
+
+
+def pub_case(rng, big):
+    """(layout, [(payload, expected canonical result)], byte stream, reads)"""
+    import streamglue as sg
+    import streamgen as gen
+    n = rng.randrange(1, 5)
+    layout = [(rng.choice(PUB_TYPES), rng.choice([1, 1, 2, 3]), rng.choice([0, 0, 1, 2])) for _ in range(n)]
+    parts, frames = [], []
+    for k in range(rng.randrange(2, 7)):
+        ns = rng.choice([1, 1, 2, 3, 5]) if not (big and k == 1) else rng.choice([120, 300, 700])
+        smps = [gen.gen_sample(rng, layout, {}, rng.randrange(n)) for _ in range(ns)]
+        flags = rng.choice([0, 0, 1, rng.randrange(256)])
+        payload = sg.ref_wire(layout, {}, smps, flags=flags)
+        want = f"ok {flags} " + "|".join(gen.sample_str(layout, {}, s_, True) for s_ in smps)
+        frames.append((payload, want))
+        r = rng.random()
+        if r < 0.25:
+            # noise rich in start bytes in which no position starts a decodable header (every id byte is > 8)
+            parts.append(bytes(rng.choice([0x55, 0x55, 0xEE, 0xAA, 0x13]) for _ in range(rng.randrange(1, 6))) + b"\xee\xee\xee")
+        elif r < 0.4:
+            parts.append(ref_frame(4, bytes(4)))                     # an ACK in between goes to the other queue
+        elif r < 0.5:
+            bad = bytearray(ref_frame(1, payload))
+            bad[-1] ^= 0x40
+            parts.append(bytes(bad))                                  # the same frame with a damaged CRC first
+        parts.append(ref_frame(1, payload))
+    stream = b"".join(parts)
+    mode = rng.randrange(4)
+    if mode == 0:
+        reads = [stream]
+    elif mode == 1:
+        reads = cut(stream, rng.choice([1, 3, 7, 64]))
+    elif mode == 2:
+        reads = [x for c in cut(stream, rng.choice([5, 50, 1000])) for x in (c, b"")]
+    else:
+        reads = g.random_chunking(rng, stream)
+    if len(reads) > 3000:
+        reads = cut(stream, 64)
+    return layout, frames, stream, reads
+
+
+def layout_str(layout):
+    return ",".join(f"{t}:{v}:{m}" for t, v, m in layout)
+
+
+def pub_line(layout, reads):
+    return "pub " + layout_str(layout) + " " + ",".join(hexs(c) for c in reads)
+
+
+def pub_expected(layout, stream):
+    """what stream_data() must return, call by call, for the received bytes `stream`: the STREAM frames of the
+    reference scan, each decoded by the reference stream parser (int and float types only); None = cannot judge"""
+    import streamglue as sg
+    out = []
+    for fid, payload in ref_scan(stream):
+        if fid != 1 or not payload:
+            continue
+        parsed = sg.ref_parse(layout, {}, payload)
+        if parsed is None:
+            return None
+        smps = []
+        for chan, vals, metas in parsed:
+            ty, vdim, mlen = layout[chan]
+            vs = []
+            for code, raw in vals:
+                if code in "BHIQbhiq":
+                    vs.append(f"i:{int.from_bytes(raw, 'little', signed=code.islower())}")
+                elif code in "fd":
+                    vs.append(f"{code}:" + format(int.from_bytes(raw, "little"), f"0{2 * len(raw)}x"))
+                else:
+                    return None
+            smps.append(f"{chan},{sg.dtype_of(ty, {})},{vdim},{mlen},[{';'.join(vs)}],"
+                        f"[{';'.join(str(int.from_bytes(m, 'little')) for m in metas)}]")
+        out.append((payload, f"ok {payload[0]} " + ("|".join(smps) or "-")))
+    return out
+
+
+def pub_real(layout, reads, stale=None, info=None):
+    """canonical results of the real stream_data() calls for the scripted reads (+ reads seen, carry-over)"""
+    import streamglue as sg
+    res, seen, carry = pub_session(layout, reads, stale=stale, info=info)
+    exp = pub_expected(layout, carry + b"".join(reads)) or []
+    out = []
+    for k, ds in enumerate(res):
+        if isinstance(ds, str):
+            out.append(ds)
+        elif k < len(exp):
+            out.append(sg.canon_decoded(ds, layout, {}, exp[k][0]))
+        else:
+            out.append(f"extra flags={ds.flags} samples={len(ds.samples)}")
+    return out, seen, carry
+
+
+def pub_oracle(layout, reads):
+    exp = pub_expected(layout, b"".join(reads))
+    if exp is None:
+        return None
+    got, seen, carry = pub_real(layout, reads)
+    if carry:
+        return None
+    want = [w for _, w in exp]
+    if got != want:
+        k = next((i for i, (a, b) in enumerate(zip(got, want)) if a != b), min(len(got), len(want)))
+        return {"key": "public-level", "what": "CommHandler.stream_data() over a scripted link does not return the STREAM "
+                "frames of one left-to-right scan of the received bytes (decoded), call by call",
+                "expected": f"{len(want)} results; #{k}: " + (want[k][:300] if k < len(want) else "none"),
+                "observed": f"{len(got)} results; #{k}: " + (got[k][:300] if k < len(got) else "none"),
+                "layout": layout_str(layout), "stream_len": len(b"".join(reads)),
+                "reads": ",".join(hexs(c) for c in reads)[:4000], "case": pub_line(layout, reads)}
+    return None
+
+
+def reconnect_scenarios(rng):
+    """(label, stale bytes of the first session, layout, reads of the second session)"""
+    layout = [(7, 1, 0), (10, 2, 1)]
+    import streamglue as sg
+    import streamgen as gen
+    frames = []
+    for _ in range(3):
+        smps = [gen.gen_sample(rng, layout, {}, rng.randrange(2)) for _ in range(rng.randrange(1, 4))]
+        frames.append(ref_frame(1, sg.ref_wire(layout, {}, smps, flags=0)))
+    stream = b"".join(frames)
+    reads = [stream[:5], b"", stream[5:]]
+    return [("cut-off long frame", big_frame(rng, 1006, fid=1)[:100], layout, reads),
+            ("cut-off short frame", ref_frame(1, bytes(40))[:20], layout, reads),
+            ("bogus header declaring 65535", BOGUS65535, layout, reads),
+            ("cut-off header", b"\x55\x0a", layout, reads),
+            ("complete frame not yet extracted + cut-off frame", ref_frame(4, bytes(4))[:6], layout, reads)]
+
+
+def reconnect_oracle(label, stale, layout, reads):
+    """a session that follows a disconnect behaves as a session of a fresh handler: the handshake takes the same
+    requests and the same (virtual) time as the first one, and the frames delivered are the scan of the bytes
+    received in THIS session (bytes left over from the previous session are not part of it)"""
+    info = {}
+    got, seen, carry = pub_real(layout, reads, stale=stale, info=info)
+    want = [w for _, w in (pub_expected(layout, b"".join(reads)) or [])]
+    bad = None
+    if info.get("connect2_outcome") != "ok":
+        bad = f"second connect: {info.get('connect2_outcome')} after {info['connect2'][0]} requests / {info['connect2'][1]} s"
+    elif info["connect2"] != info["connect1"]:
+        bad = (f"second connect took {info['connect2'][0]} requests / {info['connect2'][1]} s, "
+               f"the first one {info['connect1'][0]} requests / {info['connect1'][1]} s")
+    elif got != want:
+        bad = f"stream_data() results in the second session: {len(got)} results, first {str(got[:1])[:200]}"
+    if bad:
+        return {"key": "reconnect-stale-buffer", "what": "bytes of a frame left unfinished when the client disconnected "
+                "are still in the reassembly buffer of the next session (" + label + ")",
+                "expected": f"second connect ok with {info['connect1'][0]} requests / {info['connect1'][1]} s, then "
+                            f"{len(want)} stream_data() results",
+                "observed": bad, "stale_bytes_first_session": hexs(stale)[:400], "layout": layout_str(layout),
+                "reads_second_session": ",".join(hexs(c) for c in reads),
+                "case": "reconnect " + layout_str(layout) + " " + hexs(stale) + " " + ",".join(hexs(c) for c in reads)}
+    return None
+
+
 class C03(Prop):
     id = "C03"
     lean_module = "NxsModel.Props.C03"
     rule = ("byte streams of valid frames of all ids interleaved with noise (0x55-rich), cut-off frames, damaged frames, "
             "bogus headers x chunkings (every composition of short streams, single split at every position, byte-wise, "
             "random, with empty reads) fed through a scripted link to the real CommHandler._recv_thread; the delivered "
-            "frames are compared with the model's run; distinct = distinct (stream, chunking); non-trivial = stream "
-            "containing at least one valid frame and at least 2 chunks")
+            "frames are compared with the model's run; long frames (255..257, 1023..1025, 1500, 4096/4097, 32767/32768, "
+            "65535 bytes on the wire, random payloads) behind noise and in front of a valid frame under one read / 64-byte "
+            "reads / 1500-byte reads with idle reads / splits inside the header, at its end, inside the CRC / byte-wise; "
+            "decodable bogus headers (declared 40 and 65535 bytes) in front of valid frames, with the awaited bytes supplied "
+            "later or not; public level: stream_data() of a connected CommHandler over a scripted link vs the model "
+            "(Reasm.run + Route + Stream.decode) and vs the samples encoded; distinct = distinct (stream, chunking); "
+            "non-trivial = stream containing at least one valid frame and at least 2 chunks")
 
     def line(self, chunks):
         return "reasm run " + ",".join(hexs(c) for c in chunks)
@@ -158,6 +520,23 @@ class C03(Prop):
             pre = bytes(rng.randrange(0, 3))
             for k in range(0, 5):
                 yield self.line([pre + f1[:k], b"", f1[k:] + f2]), "residue"
+        # long frames
+        for total in BIG_SIZES:
+            small = total <= 1025
+            for rep in range(2 if (T and total < 32767) else 1):
+                f = big_frame(rng, total)
+                post = g.valid_frame(rng, fid=rng.choice([2, 4, 5]))
+                for tag, chunks in big_chunkings(NOISE_BEFORE if rep == 0 else g.noise(rng, 7, sof_rich=True) + b"\xee",
+                                                 f, post, small, T or small):
+                    yield self.line(chunks), tag
+        # two long frames back to back, the second one cut off and followed by a valid frame
+        for total in ([300, 1100, 5000] if not T else [300, 1100, 5000, 20000, 40000]):
+            f1, f2, f3 = big_frame(rng, total), big_frame(rng, total + 1), g.valid_frame(rng)
+            s = f1 + f2[:total // 2] + f3 + f3
+            yield self.line(cut(s, 1000)), "big-cutoff"
+            yield self.line(cut(s + bytes(total), 1000) + [b""]), "big-cutoff-covered"
+        for chunks, tag in delay_cases(rng, T):
+            yield self.line(chunks or [b""]), tag
 
     def impl(self, line):
         t = line.split(" ")
@@ -171,7 +550,32 @@ class C03(Prop):
         return out != "ok -" and "," in line.split(" ")[-1]
 
     def oracle(self, line, impl_out=None):
+        # the pipeline writes one replay per key and stops collecting after 20 violations: handing it more than a few
+        # of one key only starves the other keys (a change that breaks short streams would hide the long-frame input)
+        # … and once failing inputs are in hand the rest of the search gets a time budget (20 s after the first hit)
+        if self._first_hit is not None and time.time() - self._first_hit > float(os.environ.get("VERIF_C03_SEARCH_S", "20")):
+            return None
+        v = self._oracle(line)
+        if v:
+            if self._first_hit is None:
+                self._first_hit = time.time()
+            k = v.get("key", "")
+            self._per_key[k] = self._per_key.get(k, 0) + 1
+            if self._per_key[k] > 4:
+                return None
+        return v
+
+    _per_key: dict = {}
+    _first_hit = None
+
+    def _oracle(self, line):
         t = line.split(" ")
+        if t[0] == "reconnect":
+            layout = [tuple(int(x) for x in c.split(":")) for c in t[1].split(",")]
+            return reconnect_oracle("replay", unhex(t[2]), layout, [unhex(c) for c in t[3].split(",")])
+        if t[0] == "pub":
+            layout = [tuple(int(x) for x in c.split(":")) for c in t[1].split(",")]
+            return pub_oracle(layout, [unhex(c) for c in t[2].split(",")])
         if t[1] == "route":
             chunks = [unhex(c) for c in t[3].split(",")]
             a, b = run_real_routed(chunks, t[2] == "1")
@@ -186,8 +590,18 @@ class C03(Prop):
         got = run_real(chunks)
         want = ref_scan(b"".join(chunks))
         if got != want:
+            stream = b"".join(chunks)
+            longest = max([len(d) + 6 for _, d in want] + [0])
+            if longest >= 255:
+                # long frames get their own key, so that a failing input with a long frame is reported next to one
+                # with short frames (one replay per key)
+                return {"key": "long-frame", "what": "frames extracted differ from one left-to-right scan of the concatenated "
+                        f"bytes on a stream with a valid frame of {longest} bytes (chunk sizes {[len(c) for c in chunks][:12]}…)",
+                        "expected": "ids:payload lengths " + ",".join(f"{i}:{len(d)}" for i, d in want),
+                        "observed": "ids:payload lengths " + ",".join(f"{i}:{len(d)}" for i, d in got),
+                        "stream_len": len(stream)}
             return {"key": "chunking-dependence", "what": "frames extracted differ from one left-to-right scan of the concatenated bytes",
-                    "expected": fstr(want), "observed": fstr(got), "stream": hexs(b"".join(chunks))}
+                    "expected": fstr(want), "observed": fstr(got), "stream": hexs(stream)}
         return None
 
     def search_cases(self, rng):
@@ -198,6 +612,113 @@ class C03(Prop):
             for sizes in g.compositions(min(len(s), 11)):
                 head = g.chunk(s[:11], sizes)
                 yield self.line(head + [s[11:]]), "search"
+        # frames of every id with an empty payload, alone and between others
+        for fid in range(9):
+            e = ref_frame(fid, b"")
+            yield self.line([e]), "search"
+            yield self.line([f2 + e + f2]), "search"
+            yield self.line([f2[:3], f2[3:] + e[:2], b"", e[2:] + f2]), "search"
+        # a false start byte 1..5 bytes in front of a frame; a start byte inside a payload with an idle read behind it
+        a = ref_frame(4, bytes(4))
+        c = ref_frame(2, bytes([3, 11, 0]))
+        for k in range(1, 6):
+            for fill in (0x00, 0x13, 0x55):
+                junk = bytes([0x55] + [fill] * (k - 1))
+                yield self.line([junk + a + c]), "search"
+                yield self.line([junk, a + c]), "search"
+        st = ref_frame(1, bytes([1, 2, 0x55, 3, 4, 5, 6, 7]))
+        for k in range(1, len(st)):
+            yield self.line([st[:k], b"", st[k:] + a]), "search"
+        # a complete frame with the beginning of the next one (or noise, or a damaged frame) in the same read
+        bad = bytearray(c)
+        bad[-1] ^= 1
+        for tail in (a[:1], a[:3], a[:5], a[:-1], b"\x00\xaa", bytes(bad)):
+            yield self.line([c + st + tail, a[len(tail):] if a.startswith(tail) else a]), "search"
+
+    def extra_checks(self, rng, tier, ev):
+        """public level: stream_data() of a connected CommHandler over a scripted link, judged by the oracle (reference
+        scan + reference stream parser) and compared with the model (Reasm.run, Route.queues, Stream.decode)"""
+        from common import driver_run, DRIVER
+        T = tier == "thorough"
+        n = int(os.environ.get("VERIF_C03_PUB", "60" if T else "10"))
+        viol = []
+        sessions = []
+        # F21 (fixed 4392d6e): a second session on the same handler after a disconnect that interrupted a frame
+        nrec = 0
+        for label, stale, layout, reads in reconnect_scenarios(rng):
+            v = reconnect_oracle(label, stale, layout, reads)
+            nrec += 1
+            if v:
+                viol.append(v)
+                break
+        ev["coverage"]["reconnect_scenarios"] = nrec
+        stats = {"sessions": 0, "reads": 0, "bytes": 0, "stream_frames": 0, "longest_frame": 0, "ambiguous_streams": 0}
+        for k in range(n):
+            layout, frames, stream, reads = pub_case(rng, big=(k % 3 == 0))
+            exp = pub_expected(layout, stream)
+            if exp is None:
+                raise RuntimeError("harness: the reference parser rejects a payload of the reference encoder: "
+                                   + pub_line(layout, reads)[:300])
+            if [w for _, w in exp] != [w for _, w in frames]:
+                # the bytes of a damaged frame happen to contain a decodable header: the reference scan (the property)
+                # decides what is delivered, not the generator's intention
+                stats["ambiguous_streams"] += 1
+            got, seen, carry = pub_real(layout, reads)
+            stats["sessions"] += 1
+            stats["reads"] += len(reads)
+            stats["bytes"] += len(stream)
+            stats["stream_frames"] += len(exp)
+            stats["longest_frame"] = max([stats["longest_frame"]] + [len(p_) + 6 for p_, _ in frames])
+            want = [w for _, w in exp]
+            if carry:
+                raise RuntimeError(f"harness: carry-over buffer not empty after the handshake: {carry.hex()}")
+            if got != want:
+                v = pub_oracle(layout, reads)
+                if v:
+                    viol.append(v)
+                    self._per_key["public-level"] = self._per_key.get("public-level", 0) + 1
+                    if len(viol) >= 3:
+                        break
+                    continue
+            sessions.append((layout, seen, got))
+        ev["coverage"]["public_level"] = stats
+        # model side: the reads the client saw -> Reasm.run -> Route.queues (device known) -> Stream.decode per frame
+        if sessions and os.path.exists(DRIVER):
+            routed = driver_run(["reasm route 1 " + (",".join(hexs(c) for c in seen) or "-") for _, seen, _ in sessions])
+            dec_lines, owner = [], []
+            for i, ((layout, _, _), r) in enumerate(zip(sessions, routed)):
+                q = r.split(" / ")[1] if " / " in r else "?"
+                for item in ([] if q in ("ok -", "?") else q[3:].split(",")):
+                    fid, _, hx = item.partition(":")
+                    if hx != "-":
+                        dec_lines.append(f"stream dec {layout_str(layout)} - {hx}")
+                        owner.append(i)
+            dec = driver_run(dec_lines)
+            model = [[] for _ in sessions]
+            for i, o in zip(owner, dec):
+                model[i].append(o)
+            for (layout, seen, got), m in zip(sessions, model):
+                if m != got:
+                    k = next((i for i, (a, b) in enumerate(zip(got, m)) if a != b), min(len(got), len(m)))
+                    raise RuntimeError("public-level correspondence: stream_data() results differ from the model "
+                                       f"(Reasm.run + Route + Stream.decode) at result #{k}: real "
+                                       f"{(got[k] if k < len(got) else 'none')[:200]} model {(m[k] if k < len(m) else 'none')[:200]}"
+                                       f" case {pub_line(layout, seen)[:400]}")
+            stats["model_compared"] = len(sessions)
+        return viol
+
+    def deep_search(self, rng):
+        out = []
+        if self._per_key.get("public-level"):
+            return out          # a public-level failing input has been reported already
+        for k in range(40):
+            layout, frames, stream, reads = pub_case(rng, big=(k % 2 == 0))
+            v = pub_oracle(layout, reads)
+            if v:
+                out.append(v)
+                if len(out) >= 2:
+                    break
+        return out
 
 
 PROP = C03()
